@@ -1193,6 +1193,9 @@ func simRunCase(rt *rapid.T, mode string, profile string, rec *ev.Rec) {
 	if s.insideCrashes > 0 {
 		labels = append(labels, "crashInsideHandler")
 	}
+	if s.walOnlyKept > 0 {
+		labels = append(labels, "unsentVoteKeptInWAL")
+	}
 	if s.restartsAfterTorn > 0 {
 		labels = append(labels, "voteAfterTornRestart")
 	}
